@@ -541,7 +541,8 @@ fn cmd_shrink(prop: &str, seed: u64, clause: &str, thorough: bool) -> i32 {
     let sc = gen::generate(seed, &gp);
     let opts = RunOpts { prop: prop.to_string(), thorough };
     let rep = run_scenario(&sc, &opts);
-    let target = match rep.violations.iter().find(|(_, v)| v.prop == prop && v.clause == clause) {
+    let vprop = std::env::var("VPROP").unwrap_or_else(|_| prop.to_string());
+    let target = match rep.violations.iter().find(|(_, v)| v.prop == vprop && v.clause == clause) {
         Some((_, v)) => v.clone(),
         None => {
             eprintln!("no such violation at this seed");
